@@ -4,6 +4,7 @@ import Driver.StorageD
 import Driver.DecodeD
 import Driver.NotifierD
 import Driver.ClusterD
+import Driver.TmplD
 
 /-!
   Line-protocol driver.  One operation per input line, one canonical output line per operation.
@@ -22,6 +23,7 @@ def step (st : State) (line : String) : State × String :=
   match line.splitOn " " with
   | "E" :: args => (st, EvalD.step args)
   | "D" :: args => (st, DecodeD.step args)
+  | "T" :: args => (st, TmplD.step args)
   | "K" :: args =>
     let (s', out) := ClusterD.step st.cluster args
     ({ st with cluster := s' }, out)
